@@ -129,7 +129,8 @@ let spec_part (lang : Model.lang) (mapped : Model.str list) (entries : Model.ws_
       of_list (fun (c, pairs) ->
         L [str_to_atom c; of_bool (Model.good_C14 ws mapped c pairs);
            of_list (fun (m, n) -> L [str_to_atom m; str_to_atom n]) (Model.unsound_imports ws c pairs);
-           of_list of_verdict (Model.judge_crate ws mapped c pairs)]) o in
+           of_list of_verdict (Model.judge_crate ws mapped c pairs);
+           of_list (fun (m, n) -> L [str_to_atom m; str_to_atom n]) (Model.const_imports ws pairs)]) o in
   L [L [A "paths"; paths]; L [A "crates"; cr]; L [A "judge"; judge]]
 
 let c14 args =
